@@ -275,6 +275,32 @@ func runC10(c *core.Ctx) {
 			}
 		}
 	}
+	// --- case/when is defined through ==: for every pair of Go universe values the two agree ----------------------------------
+	{
+		U := gen.PlainDataUniverse()
+		for ai := range U {
+			for bi := range U {
+				idx++
+				if !c.Mine(idx) {
+					continue
+				}
+				uu := gen.PlainDataUniverse()
+				b := map[string]any{"a": uu[ai].Go, "b": uu[bi].Go}
+				if !c.Begin("case-vs-eq:" + uu[ai].Name + "~" + uu[bi].Name) {
+					continue
+				}
+				eq := core.Run(e, "{% if a == b %}W{% else %}E{% endif %}", b)
+				cs := core.Run(e, "{% case a %}{% when b %}W{% else %}E{% endcase %}", b)
+				c.Eval(2)
+				c.Obs("case_vs_eq_pairs", 1)
+				c.Distinct("casevseq", uu[ai].Name, uu[bi].Name)
+				if !eq.Same(cs) || eq.Panic != "" {
+					c.Violate("case|disagrees-with-==|"+kindOf(U[ai])+"~"+kindOf(U[bi]), "case selects the when clause whose value equals the subject by ==: for the same two values {% if a == b %} and {% case a %}{% when b %} must agree",
+						map[string]any{"a": gen.Describe(uu[ai].Go), "b": gen.Describe(uu[bi].Go), "if_==": eq.Brief(), "case_when": cs.Brief()})
+				}
+			}
+		}
+	}
 	// --- case over integers of every width and signedness: the when clause that equals the subject by numeric value ---
 	if c.Shard == 5%c.NShards && c.Begin("case-integer-widths") {
 		type iv struct {
